@@ -144,6 +144,8 @@ def run(prog, chk):
         ("LAST", [(A, 0, 0), (B, LA, 0)], [(A, 0), (B, 0)], [(B, 0), (A, 0)]),
         ("FIXED_ORDER", [(A, FO, 0), (B, FO, 0)], [(A, 0), (B, 0)], [(B, 0), (A, 0)]),
         ("unknown critical element", [(A, 0, 0)], [(A, 0), (X, 1)], [(A, 0), (X, 0)]),
+        ("unknown critical element, two-byte tag", [(A, 0, 0)], [(0x1f7e, 1), (A, 0)], [(0x1f7e, 0), (A, 0)]),
+        ("unknown critical element, tag 0", [(A, 0, 0)], None, [(0, 0)]),
     ]
     for name, tmpl, good, bad in cases:
         for kind, seq in (("accept", good), ("reject", bad)):
